@@ -314,6 +314,9 @@ pub fn gen_opt_shapes(out: &mut Vec<Design>, scope: Scope) {
             .finish(),
     );
     // ---- dead-variable DCE: temporaries never read, cascaded -----------------------------------
+    // Dead-variable DCE only considers `let`-kind variables (ports and `var`s are protected as
+    // externally visible): dead `let` temporaries, cascaded, and a `let` whose only reader is an
+    // always_ff (comb-to-FF hoist residue), at the root and below it.
     out.push(
         B::new("opt", "opt/dce/dead")
             .core(true)
@@ -322,12 +325,24 @@ pub fn gen_opt_shapes(out: &mut Vec<Design>, scope: Scope) {
             .inp("b", 2, false)
             .out("y", 4, false)
             .out("q", 2, false)
-            .pre("module DeadSub (\n    a: input logic<2>,\n    b: input logic<2>,\n    y: output logic<4>,\n    unused: output logic<4>,\n) {\n    var d0: logic<4>;\n    var d1: logic<4>;\n    var d2: logic<4>;\n    assign d0 = {a, b} * 4'd3;\n    assign d1 = d0 + 4'd1;\n    assign d2 = d1 ^ d0;\n    assign unused = d2;\n    assign y = {b, a} + 4'd2;\n}\n")
+            .out("h", 4, false)
+            .pre("module DeadSub (\n    clk: input clock,\n    rst: input reset,\n    a: input logic<2>,\n    b: input logic<2>,\n    y: output logic<4>,\n    h: output logic<4>,\n    unused: output logic<4>,\n) {\n    let _t0: logic<4> = {a, b} * 4'd3;\n    let _t1: logic<4> = _t0 + 4'd1;\n    let _t2: logic<4> = _t1 ^ _t0;\n    let _t3: logic<4> = _t2 + {b, a};\n    let hh: logic<4> = {b, a} ^ 4'd9;\n    var d0: logic<4>;\n    assign d0 = {a, b} * 4'd5;\n    assign unused = d0 + 4'd1;\n    assign y = {b, a} + 4'd2;\n    always_ff {\n        if_reset {\n            h = 0;\n        } else {\n            h = hh + 4'd1;\n        }\n    }\n}\n")
             .l("var nc: logic<4>;")
-            .l("inst u: DeadSub (\n    a,\n    b,\n    y,\n    unused: nc,\n);")
-            .l("var _dead: logic<4>;")
-            .l("assign _dead = nc + 4'd1;")
-            .l(&ff("q", "0", "q + y"))
+            .l("inst u: DeadSub (\n    clk,\n    rst,\n    a,\n    b,\n    y,\n    h,\n    unused: nc,\n);")
+            .l("let _dead0: logic<4> = nc + 4'd1;")
+            .l("let _dead1: logic<4> = _dead0 * {a, b};")
+            .l(&ff("q", "0", "q + y[1:0]"))
+            .finish(),
+    );
+    // many dead lets in replicated slices
+    out.push(
+        B::new("opt", "opt/dce/slices")
+            .tag("dead_var_dce")
+            .inp("a", 2, false)
+            .inp("b", 2, false)
+            .out("y", 4, false)
+            .pre("module DeadSlices #(\n    param N: u32 = 24,\n) (\n    a: input logic<2>,\n    b: input logic<2>,\n    y: output logic<4>,\n) {\n    var t: logic<4> [N];\n    for i in 0..N :g {\n        let _d0: logic<4> = {a, b} + (i % 16);\n        let _d1: logic<4> = _d0 ^ {b, a};\n        assign t[i] = ({a, b} ^ ((i * 5) % 16)) + {2'b0, b};\n    }\n    always_comb {\n        y = 0;\n        for i in 0..N {\n            y = y ^ t[i];\n        }\n    }\n}\n")
+            .l("inst u: DeadSlices (\n    a,\n    b,\n    y,\n);")
             .finish(),
     );
     // ---- repeated loads (JIT load cache) with interleaved stores and if blocks ------------------
